@@ -73,6 +73,7 @@ def generate(ck):
                     kind="callables",
                     family=fam,
                     vaporised_oil=bool(rng.random() < 0.5),
+                    negative_oil_slope=bool(rng.random() < 0.35),
                     slopes=[float(v) for v in 10.0 ** rng.uniform(-7, -3, 3)],
                     R=[float(rng.uniform(50, 1500)), float(rng.uniform(0, 1e-4)), float(rng.uniform(0.01, 0.3)), float(rng.uniform(0, 1e-8))],
                 )
@@ -120,6 +121,8 @@ def run_case(ck, desc):
             Rs1 = Rv1 = 0.0
         if fam == "constant":
             so_ = sg_ = sw_ = 0.0
+        if desc.get("negative_oil_slope"):
+            so_ = -min(so_, 6e-5)  # Bo rising with pressure (as below a bubble point): d(1/Bo)/dp < 0
         lin = lambda a, b: (lambda x: a + b * np.asarray(x, dtype=float))  # noqa: E731
         inv = {"Bo": lin(0.7, so_), "Bg": lin(5.0, sg_ * 1e5), "Bw": lin(0.95, sw_)}  # 1/B(p)
         pvt = {
@@ -153,6 +156,7 @@ def run_case(ck, desc):
                 k = int(np.argmax(np.abs(got - want) / np.abs(want)))
                 ck.violation("equals-analytic-pressure-derivative", {"family": fam, "got": got[k], "want": want[k], "rel": e, "vaporised_oil": desc["vaporised_oil"]}, desc)
             nontrivial = bool(np.all(want != 0))
+            ck.count("states_with_negative_storage_derivative", int(np.sum(want < 0)))
         # proportional to porosity (exact for a factor of two)
         got2 = np.asarray(fp.compressibility_combined_func(p, So, 2 * phi, Sw, full), dtype=float)
         if not np.array_equal(got2, 2 * got):
